@@ -3,22 +3,9 @@
    forced flush by wait(cancel=True) (C07). *)
 From Coq Require Import List Arith NArith Bool Lia ZifyBool ZifyNat ZifyN.
 Import ListNotations.
-Require Import Aiuti.Buffer.
+Require Import Aiuti.Buffer Aiuti.Case_Buffer.
 
-(* ---- the serial monitor: state = (is a call open?, number of calls started) -- *)
-Fixpoint serial (open : bool) (n : nat) (tr : list obs) : option (bool * nat) :=
-  match tr with
-  | [] => Some (open, n)
-  | FnStart c set _ :: r =>
-      if open then None else
-      match set with
-      | [] => None
-      | _ => if Nat.eqb c n then serial true (S n) r else None
-      end
-  | FnEnd c _ _ :: r => if open && Nat.eqb (S c) n then serial false n r else None
-  | _ :: r => serial open n r
-  end.
-
+(* the serial monitor [serial] is defined in Case_Buffer.v (it is part of the C08 trace monitor) *)
 Lemma serial_app o n t1 t2 :
   serial o n (t1 ++ t2) =
   match serial o n t1 with Some (o', n') => serial o' n' t2 | None => None end.
@@ -394,3 +381,32 @@ Proof.
   - intros pre c set t mid c' set' t' rest E. rewrite E in H. exact (serial_between _ _ _ _ _ _ _ _ _ _ _ H).
   - intros pre c set t rest E. rewrite E in H. exact (serial_callno _ _ _ _ _ H).
 Qed.
+
+(* ---- the serial part of the C08 monitor: complete and sound -------------------------------- *)
+Require Import Aiuti.Case_C08.
+
+Lemma ok_serial_complete T evs : ok_serial (Case T evs (trace T evs)) = true.
+Proof.
+  unfold ok_serial. pose proof (serial_nonempty_lemma T evs) as H.
+  destruct (serial false 0 (concat (trace T evs))); [reflexivity|congruence].
+Qed.
+
+Lemma ok_serial_sound T evs observed :
+  ok_serial (Case T evs observed) = true ->
+  let tr := concat observed in
+  (forall pre c set t rest, tr = pre ++ FnStart c set t :: rest -> set <> []) /\
+  (forall pre c set t mid c' set' t' rest,
+      tr = pre ++ FnStart c set t :: mid ++ FnStart c' set' t' :: rest ->
+      exists ok set_end, In (FnEnd c ok set_end) mid) /\
+  (forall pre c set t rest, tr = pre ++ FnStart c set t :: rest -> c = n_starts pre).
+Proof.
+  intros Hok. cbv zeta. unfold ok_serial in Hok.
+  assert (H : serial false 0 (concat observed) <> None) by (destruct (serial false 0 (concat observed)); [discriminate|discriminate Hok]).
+  repeat split.
+  - intros pre c set t rest E. rewrite E in H. exact (serial_nonempty_in _ _ _ _ _ _ _ H).
+  - intros pre c set t mid c' set' t' rest E. rewrite E in H. exact (serial_between _ _ _ _ _ _ _ _ _ _ _ H).
+  - intros pre c set t rest E. rewrite E in H. exact (serial_callno _ _ _ _ _ H).
+Qed.
+
+Lemma ok_implies_serial c : Case_C08.ok c = true -> ok_serial c = true.
+Proof. unfold Case_C08.ok. intros H. apply andb_prop in H as [H _]. exact H. Qed.
